@@ -101,6 +101,18 @@ impl Error {
             false
         }
     }
+
+    /// Returns whether the error is caused by a refused or failed memory allocation.
+    pub fn out_of_memory(&self) -> bool {
+        matches!(
+            self,
+            Self::Buffer(_)
+                | Self::OutOfMemory
+                | Self::Modular(jxl_modular::Error::Buffer(_))
+                | Self::VarDct(jxl_vardct::Error::Buffer(_))
+                | Self::VarDct(jxl_vardct::Error::Modular(jxl_modular::Error::Buffer(_)))
+        )
+    }
 }
 
 pub type Result<T> = std::result::Result<T, Error>;
